@@ -182,7 +182,8 @@ family(
                                                   dict(ns='p1', values={'x': 2}, tasks=['a']),
                                                   dict(ns='p2', values={'x': 1}, tasks=['a'])]),
     },
-    lists=[['v1'], ['v2'], ['v3'], ['v4'], ['s12'], ['s21'], ['v1', 'v2'], ['v2', 'v3'], ['v2', 'v4'], ['s12', 's21']],
+    # (['v2', 'v4'] - one computation at two namespace depths inside ONE MultiChain - is used by C13 only: known finding D23)
+    lists=[['v1'], ['v2'], ['v3'], ['v4'], ['s12'], ['s21'], ['v1', 'v2'], ['v2', 'v3'], ['s12', 's21']],
 )
 
 
